@@ -135,7 +135,13 @@ func Disassemble(main *runtime.Function, globals []Global, n int) map[string][]b
 		for fn := range funcs {
 			functions = append(functions, fn)
 		}
-		sort.Slice(functions, func(i, j int) bool { return funcs[functions[i]] < funcs[functions[j]] })
+		sort.Slice(functions, func(i, j int) bool {
+			fi, fj := functions[i], functions[j]
+			if funcs[fi] != funcs[fj] {
+				return funcs[fi] < funcs[fj]
+			}
+			return slices.Index(allFunctions, fi) < slices.Index(allFunctions, fj)
+		})
 
 		for _, fn := range functions {
 			if fn.Macro {
